@@ -31,9 +31,9 @@ enum SKind {
 
 template <class Key> struct KeyConv;
 template <> struct KeyConv<std::uint64_t> {
-  static std::uint64_t make(const char* p, size_t) {
+  static std::uint64_t make(const char* p, size_t n) {
     std::uint64_t k = 0;
-    for (size_t i = 0; i < 8; i++) k = (k << 8) | static_cast<unsigned char>(p[i]);
+    for (size_t i = 0; i < 8; i++) k = (k << 8) | (i < n ? static_cast<unsigned char>(p[i]) : 0u);  // unused bounds may be empty
     return k;
   }
 };
@@ -95,8 +95,15 @@ struct Runner {
   bool no_pause_ops = true;
   int nonrep_fd = -1;
   std::atomic<int> turn{0};
-  // arena for caller-side key buffers: placement decided by the case, both address orders get exercised
-  alignas(16) char arena[4][64];
+  // caller-side key buffers: exact-size heap blocks, so that AddressSanitizer's redzone starts at the byte after the key
+  // (a read past the end of a short key is reported, not absorbed by a neighbouring buffer); for scan bounds the case
+  // decides which of the two blocks lies at the lower address, so both address orders get exercised
+  struct KeyBuf {
+    std::unique_ptr<char[]> p;
+    size_t n = 0;
+    explicit KeyBuf(const std::string& k) : p(new char[k.size() ? k.size() : 1]), n(k.size()) { std::memcpy(p.get(), k.data(), k.size()); }
+    Key key() const { return KeyConv<Key>::make(p.get(), n); }
+  };
 
   static std::string opname(int g, const Op& o) { return "op" + std::to_string(g) + "(kind " + std::to_string(o.kind) + " key " + hex(o.key) + ")"; }
 
@@ -144,8 +151,8 @@ struct Runner {
 
   // ---- single operations ---------------------------------------------------
   std::optional<std::string> do_get(const std::string& key, int me, bool keep_view) {
-    std::memcpy(arena[0], key.data(), key.size());
-    const Key k = KeyConv<Key>::make(arena[0], key.size());
+    const KeyBuf kb(key);
+    const Key k = kb.key();
     std::optional<std::string> r;
     if constexpr (kind == 0) {
       auto g = db->get(k);
@@ -174,12 +181,12 @@ struct Runner {
   }
 
   bool do_insert(const std::string& key, const std::string& val) {
-    std::memcpy(arena[0], key.data(), key.size());
-    return db->insert(KeyConv<Key>::make(arena[0], key.size()), unodb::value_view{reinterpret_cast<const std::byte*>(val.data()), val.size()});
+    const KeyBuf kb(key);
+    return db->insert(kb.key(), unodb::value_view{reinterpret_cast<const std::byte*>(val.data()), val.size()});
   }
   bool do_remove(const std::string& key) {
-    std::memcpy(arena[0], key.data(), key.size());
-    return db->remove(KeyConv<Key>::make(arena[0], key.size()));
+    const KeyBuf kb(key);
+    return db->remove(kb.key());
   }
 
   struct ScanOut { std::vector<std::pair<std::string, std::string>> kv; int calls_after_halt = 0; };
@@ -197,12 +204,13 @@ struct Runner {
       if (o.b > 0 && static_cast<int64_t>(so.kv.size()) >= o.b) { halted = true; return true; }
       return false;
     };
-    // bound buffers live in arena slots whose address order is chosen by the case
-    const int fs = o.c ? 2 : 1, ts = o.c ? 1 : 2;
-    std::memcpy(arena[fs], o.key.data(), o.key.size());
-    std::memcpy(arena[ts], o.key2.data(), o.key2.size());
-    const Key from = KeyConv<Key>::make(arena[fs], o.key.size());
-    const Key to = KeyConv<Key>::make(arena[ts], o.key2.size());
+    // bound buffers: two exact-size heap blocks; for bounds of equal length the case chooses their address order
+    std::unique_ptr<char[]> b1(new char[std::max<size_t>(o.key.size(), 1)]), b2(new char[std::max<size_t>(o.key2.size(), 1)]);
+    if (o.key.size() == o.key2.size() && ((b1.get() < b2.get()) != (o.c == 0))) b1.swap(b2);  // o.c == 0: from-buffer below to-buffer
+    std::memcpy(b1.get(), o.key.data(), o.key.size());
+    std::memcpy(b2.get(), o.key2.data(), o.key2.size());
+    const Key from = KeyConv<Key>::make(b1.get(), o.key.size());
+    const Key to = KeyConv<Key>::make(b2.get(), o.key2.size());
     if (o.kind == S_SCAN) db->scan(fn, o.a != 0);
     else if (o.kind == S_SCAN_FROM) db->scan_from(from, fn, o.a != 0);
     else db->scan_range(from, to, fn);
@@ -401,13 +409,14 @@ struct Runner {
         // an over-long value for a key that is already stored is a duplicate insert: it returns false before any leaf is built
         const bool duplicate = o.c == 0 && model.count(o.key) != 0;
         static const char small[16] = {1, 2, 3, 4, 5, 6, 7, 8, 9, 10, 11, 12, 13, 14, 15, 16};
-        std::memcpy(arena[0], o.key.data(), o.key.size());
+        char lbuf[64];
+        std::memcpy(lbuf, o.key.data(), std::min<size_t>(o.key.size(), sizeof lbuf));
         try {
           if (o.c == 0) {
-            const bool r = db->insert(KeyConv<Key>::make(arena[0], o.key.size()), unodb::value_view{reinterpret_cast<const std::byte*>(small), (static_cast<size_t>(1) << 32) + static_cast<size_t>(o.b)});
+            const bool r = db->insert(KeyConv<Key>::make(lbuf, o.key.size()), unodb::value_view{reinterpret_cast<const std::byte*>(small), (static_cast<size_t>(1) << 32) + static_cast<size_t>(o.b)});
             if (duplicate && !r) threw = true;  // accepted outcome, nothing to throw about
           } else if constexpr (std::is_same_v<Key, unodb::key_view>) {
-            (void)db->insert(unodb::key_view{reinterpret_cast<const std::byte*>(arena[0]), (static_cast<size_t>(1) << 32) + static_cast<size_t>(o.b)}, unodb::value_view{reinterpret_cast<const std::byte*>(small), 4});
+            (void)db->insert(unodb::key_view{reinterpret_cast<const std::byte*>(lbuf), (static_cast<size_t>(1) << 32) + static_cast<size_t>(o.b)}, unodb::value_view{reinterpret_cast<const std::byte*>(small), 4});
           } else {
             threw = true;  // not applicable to fixed-width keys
           }
